@@ -107,6 +107,19 @@ Definition inline_get (items : list (key * item)) (k : bytes) : option value :=
 Definition array_get (vals : list item) (i : nat) : option value := and_then (nth_error vals i) item_as_value.
 Definition array_len (vals : list item) : nat := List.length vals.
 
+(* Table::len = self.iter().count() (Table::iter skips placeholders) ; InlineTable::len = self.iter().count() (values only);
+   TableLike::len (default method, both impls) = self.iter().filter(|(_, v)| !v.is_none()).count() over the view's own iter ;
+   is_empty = len() == 0 *)
+Definition table_len (items : list (key * item)) : nat :=
+  List.length (filter (fun kv => negb (item_is_none (snd kv))) items).
+Definition inline_len (items : list (key * item)) : nat :=
+  List.length (filter (fun kv => item_is_value (snd kv)) items).
+Definition tablelike_len (it : item) : option nat :=
+  match item_as_table it with
+  | Some t => Some (table_len (t_items t))
+  | None => option_map inline_len (item_as_inline_table it)
+  end.
+
 (* ---- index.rs ------------------------------------------------------------------------- *)
 (* impl Index for str :: index  (Item::get("k"); `String` and `&T` delegate to it) *)
 Definition index_str (k : bytes) (it : item) : option item :=
@@ -157,7 +170,8 @@ Definition item_head (it : item) : bytes :=
                 ++ opt_list show_fval (item_as_float it)
                 ++ opt_list (fun b => str "b:" ++ show_bool b) (item_as_bool it)
                 ++ opt_list show_datetime (item_as_datetime it)
-                ++ opt_list (fun a => str "n:" ++ show_nat (array_len a)) (item_as_array it)).
+                ++ opt_list (fun a => str "n:" ++ show_nat (array_len a)) (item_as_array it)
+                ++ opt_list (fun n => str "l:" ++ show_nat n ++ str ":" ++ show_nat n ++ (if Nat.eqb n 0 then str "e" else [])) (tablelike_len it)).
 
 (* a Value: its head, then its elements as Array::get(i) / InlineTable::iter + get(k) hand them out *)
 Fixpoint acc_value (v : value) : bytes :=
